@@ -385,6 +385,46 @@ fn c14_powf(ctx: &mut Ctx) {
 }
 
 
+/// "For valid x no function of the family panics": ALL valid x (and y), far outside the ranges
+/// of the accuracy claims.  Besides the absence of a panic only C01's shape rule is asserted.
+fn c14_no_panic_total(ctx: &mut Ctx) {
+    let which = ctx.below(5);
+    let x = any_valid(ctx);
+    let y = match ctx.below(4) {
+        0 => any_valid(ctx),
+        1 => Dd::new(ctx.range(-70, 70) as f64, 0.0),
+        2 => Dd::new(ctx.range(-140, 140) as f64 / 2.0, 0.0),
+        _ => dd_exp(ctx, -60, 70, true),
+    };
+    x.key(ctx);
+    ctx.key_u64(which);
+    note_dd(ctx, "x", x);
+    let name = ["exp", "exp2", "exp_m1", "powf", "powf(-x)"][which as usize];
+    ctx.note("function", || name.to_string());
+    let (tx, ty) = (x.tf(), y.tf());
+    if which >= 3 {
+        y.key(ctx);
+        note_dd(ctx, "y", y);
+    }
+    let r = guard(|| match which {
+        0 => inh::exp(tx),
+        1 => inh::exp2(tx),
+        2 => inh::exp_m1(tx),
+        3 => inh::powf(tx, ty),
+        _ => inh::powf(-tx, ty),
+    });
+    match r {
+        Err(m) => ctx.fail(format!("{name} of the valid {}{} panicked: {m}", x.show(), if which >= 3 { format!(" with exponent {}", y.show()) } else { String::new() })),
+        Ok(t) => {
+            let r = Dd::of(t);
+            if in_c01_operand_domain(x) && (which < 3 || in_c01_operand_domain(y)) {
+                check!(ctx, normalised_or_nonfinite(r), "{name}({}) = {} is neither normalised nor non-finite", x.show(), r.show());
+            }
+        }
+    }
+    ctx.set_nontrivial(x.hi.abs() > 700.0 || x.hi.abs() < 1e-290 || which >= 3);
+}
+
 /// sign rule of powf for negative bases beyond |y| <= 10: parity may live in either word of y
 /// (e.g. y = 2^53 + 1); `Pow<f64>` / `Pow<TwoFloat>` must agree with powf bit for bit
 fn c14_powf_sign(ctx: &mut Ctx) {
@@ -476,6 +516,7 @@ pub fn c14() -> Property {
             g("exp", c14_exp, 300_000, 8_000_000),
             g("exp2", c14_exp2, 300_000, 8_000_000),
             SubCheck { name: "exp2_integers", kind: Kind::Enumerated { n: 2045 }, eval: c14_exp2_int, quick: 0, thorough: 0 },
+            g("no_panic_total", c14_no_panic_total, 400_000, 20_000_000),
             SubCheck { name: "exp_grid", kind: Kind::Enumerated { n: 2 * (128 * 712) }, eval: c14_exp_grid, quick: 0, thorough: 0 },
             SubCheck { name: "exp2_grid", kind: Kind::Enumerated { n: 2 * 64 * 1000 }, eval: c14_exp2_grid, quick: 0, thorough: 0 },
             SubCheck { name: "exp_m1_grid", kind: Kind::Enumerated { n: 2 * 128 * 64 }, eval: c14_exp_m1_grid, quick: 0, thorough: 0 },
